@@ -1,6 +1,6 @@
 #!/bin/sh
 # tools/confirm_seed.sh <Cxx> <variant>   : confirm an agent-produced change in a scratch worktree and store it under seeded/
-ID="$1"; V="$2"; SRC="/tmp/wt/out/$ID/$V"; WT=/tmp/wt/confirm_$ID$V
+ID="$1"; V="$2"; SRC="${SRCROOT:-/tmp/wt/out}/$ID/$V"; WT=/tmp/wt/confirm_$ID$V
 [ -f "$SRC/patch.diff" ] || { echo "no patch"; exit 2; }
 git -C /repo worktree add --detach "$WT" HEAD -q || exit 2
 cd "$WT"
